@@ -54,11 +54,35 @@ type c11Server struct {
 	mu          sync.Mutex
 	counts      map[string]int // transmissions per identifier
 	replies     int
-	closeAt     int // close the connection right after the n-th reply (0 = never)
+	closeAt     int    // close the connection right after the n-th reply (0 = never)
+	negFail     string // "" | no-common-version | operation-failed: (negotiation-fails-after-redial) how the discovery fails on the replacement connection
 	srvConns    []*memnet.Conn
 }
 
 func (s *c11Server) serve(c *memnet.Conn, idx int) {
+	if s.negFail != "" {
+		raw, err := readFrame(c)
+		if err != nil {
+			return
+		}
+		if idx == 0 {
+			c.Close() // the discovery request is read, then the connection is gone: a retriable fault
+			return
+		}
+		req, _ := ttlvref.Parse(raw, ttlvref.Lenient)
+		reply, _ := ttlvref.Parse(buildDiscover(req), ttlvref.Strict)
+		item := reply.Kids[1]
+		if s.negFail == "operation-failed" {
+			item.Kids = []*ttlvref.Node{item.Kids[0], {Tag: tResultStatus, Type: ttlvref.Enumeration, I: 1}, {Tag: 0x42007E, Type: ttlvref.Enumeration, I: 0x100}}
+		} else {
+			// only a version the client does not have
+			item.Kids[2].Kids = []*ttlvref.Node{{Tag: tProtoVersion, Type: ttlvref.Structure, Kids: []*ttlvref.Node{{Tag: 0x42006A, Type: ttlvref.Integer, I: 9}, {Tag: 0x42006B, Type: ttlvref.Integer, I: 9}}}}
+		}
+		_, _ = c.Write(ttlvref.Write(reply))
+		// the connection stays open: it is the client's to close
+		_, _ = readFrame(c)
+		return
+	}
 	if s.dropFrom >= 0 && idx >= s.dropFrom {
 		switch s.dropKind {
 		case "on-accept", "on-accept-noticed":
@@ -150,6 +174,9 @@ func c11Bubble(c c11Case) c11Result {
 	}
 	if c.Dir == "server-drops-connections" {
 		srv.dropFrom, srv.dropKind = c.At, c.Kind
+	}
+	if c.Dir == "negotiation-fails-after-redial" {
+		srv.negFail = c.Kind
 	}
 	if c.Dir == "close-during-redial" {
 		srv.closeAt = c.At // the server drops the first connection after its At-th reply: the next call has to re-dial
@@ -293,6 +320,22 @@ func c11Bubble(c c11Case) c11Result {
 			for k, v := range census.Count("kmipclient.(*conn).readloop", "kmipclient.(*conn).writeloop") {
 				if v != 0 {
 					return fail("closed-client-leaves-goroutines:"+k[strings.LastIndexByte(k, '.')+1:], "%d goroutines remain in %s after Close (the peers are still connected)\n%s", v, k, census.Dump(k))
+				}
+			}
+		}
+		if cl == nil && derr != nil {
+			// Dial failed: there is no client to close, so everything it opened must be gone already (the peers are still connected)
+			synctest.Wait()
+			time.Sleep(time.Second)
+			synctest.Wait()
+			for k, v := range census.Count("kmipclient.(*conn).readloop", "kmipclient.(*conn).writeloop") {
+				if v != 0 {
+					return fail("failed-dial-leaves-goroutines:"+k[strings.LastIndexByte(k, '.')+1:], "Dial returned %q, yet %d goroutines remain in %s (the peers are still connected; %d connections were dialled)\n%s", derr, v, k, dials, census.Dump(k))
+				}
+			}
+			for i, a := range cliConns {
+				if !a.IsClosed() {
+					return fail("failed-dial-leaves-connection-open", "Dial returned %q, yet connection %d of the %d it dialled was never closed", derr, i, len(cliConns))
 				}
 			}
 		}
@@ -599,6 +642,12 @@ func c11Space() []c11Case {
 						add("close-during-redial", at, "")
 					}
 				}
+				if reachable && !enforced && fu == "again" {
+					// the first connection is lost during version negotiation, the negotiation then fails on the replacement
+					for _, k := range []string{"no-common-version", "operation-failed"} {
+						add("negotiation-fails-after-redial", 0, k)
+					}
+				}
 				if reachable {
 					// a server that keeps accepting and dropping connections (from the first, second or third one on)
 					for at := 0; at <= 2; at++ {
@@ -615,7 +664,7 @@ func c11Space() []c11Case {
 
 func TestC11Faults(t *testing.T) {
 	const name = "TestC11Faults"
-	rec := evid.New("C11", name, "fault enumeration (single caller, synctest bubble): every Read index 1..7 and Write index 1..3 of the first connection x {EOF, closed, reset, short write, reset reported after the data was delivered}, the server closing right after its 1st..3rd reply, a server that keeps accepting and dropping every connection (on accept, after 8 bytes, after the whole request) from the 1st/2nd/3rd connection on, Close() landing while a call is re-dialling (the dial then succeeds), and the server going away exactly when the k-th request is about to be handed to the write loop (yield-point hook), "+
+	rec := evid.New("C11", name, "fault enumeration (single caller, synctest bubble): every Read index 1..7 and Write index 1..3 of the first connection x {EOF, closed, reset, short write, reset reported after the data was delivered}, the server closing right after its 1st..3rd reply, a server that keeps accepting and dropping every connection (on accept, after 8 bytes, after the whole request) from the 1st/2nd/3rd connection on, Close() landing while a call is re-dialling (the dial then succeeds), the first connection lost during version negotiation and the negotiation failing on the replacement (Dial fails: nothing it opened may remain), and the server going away exactly when the k-th request is about to be handed to the write loop (yield-point hook), "+
 		"x {with, without version negotiation} x {server reachable afterwards, not} x follow-up {call again, twice, Close, Close then call, Clone}; two calls precede the follow-up; "+
 		"oracle: every call and Dial/Close/Clone returns (quiescence = hang verdict), response complete and its own or an error, never two consecutive failed calls on a reachable server, <= 4 transmissions per request and a bounded number of connections per call, a closed client serves nothing and dials nothing, census of client connection goroutines 0 at the end; "+
 		"non-trivial = a fault is injected; distinct by case").Attach(t)
